@@ -17,7 +17,10 @@ _COMMON = ["sandbox_noninterference", "sandbox_only_safe_calls", "unsafe_native_
            "model_native_obs_meets_spec", "translator_covers_model_kinds", "call_and_field_checks_present",
            "safe_callback_invokers_checked", "reference_paths_cannot_write", "documented_guards_present",
            "push_event_noninterference", "push_event_only_safe_calls", "push_event_delivers_only_on_value",
-           "model_events_obs_meets_spec", "model_trace_meets_spec"]
+           "model_events_obs_meets_spec", "model_trace_meets_spec",
+           "computational_expressions_pure", "computational_obs_meets_spec", "computed_callee_checked",
+           "callback_checks_present", "unsafe_callback_rejected", "callback_check_is_necessary", "pinned_secrets_unreadable",
+           "sandbox_reads_only_visible", "sandbox_reads_only_visible_pinned", "sandbox_never_reads_pinned_secrets"]
 _KNOWN = ["all_mutating_nodes_guarded_partial", "setconst_counterexample", "sandbox_noninterference_repaired"]
 # F-C19c (IcingaApplication() cleared the application singleton) was repaired by ac7cac3: the generated destructor flag is false
 _FIXED = ["all_mutating_nodes_guarded", "application_dtor_keeps_singleton", "sandbox_noninterference_pinned",
@@ -108,17 +111,32 @@ class C19(Check):
                   "no_user_view fields; the same for one event handed to ANY list of event-stream filters (push_event_*: each filter in a fresh "
                   "sandboxed frame, errors swallowed, delivery only on a value) and for EVERY finite trace of operations (model_trace_meets_spec; "
                   "driver_model_trace_meets_spec instantiates it at the model the driver runs, with no hypothesis left that the generated tables "
-                  "do not discharge). The guard table, the Application destructor flag, call/field checks, the native flags and the callback-invoker checks are "
+                  "do not discharge). Unconditionally (EVERY configuration - no guard, no call check, no assumption on natives - sandboxed or not): "
+                  "an expression built from operators, literals, reads, array literals, blocks, conditionals, throw, try/except alone changes nothing and invokes "
+                  "nothing (computational_expressions_pure / computational_obs_meets_spec); the whitelist test is independent of how the callee was "
+                  "computed (computed_callee_checked: any callee expression evaluating to an unflagged native or a script function => sandbox error, "
+                  "nothing invoked, no argument evaluated). Confidentiality for EVERY program (sandbox_reads_only_visible, _pinned at the generated tables with "
+                  "no hypothesis left, sandbox_never_reads_pinned_secrets): every attribute value of a live object that a sandboxed evaluation hands to the script "
+                  "(ghost read log of Object::GetFieldByName, reached from a.b, a[b], method receivers, *r, r.get(), bare names after `using`, callbacks) is of a field "
+                  "not hidden from API users. The attributes the property names outright (passwords, password hash, ticket salt) are PINNED "
+                  "in Spec.lean (`secretAttrs`): a successful sandboxed read of one of them is a violation whatever flag the implementation reports "
+                  "(pinned_secrets_unreadable; the harness reads them through all 16 paths also when reflection says `visible`). The guard table, the Application destructor flag, call/field checks, the native flags and the callback-invoker checks are "
                   "extracted from /repo on every run and the table theorems are re-decided by the kernel. The real evaluator is run on one "
                   "program per statement form (incl. assignments as members of dictionary literals, method calls on hidden receivers, the "
-                  "constructor of every registered type) x 5 production call sites, ~135 reflected natives x argument tuples, every no_user_view "
+                  "constructor of every registered type; calls whose CALLEE is a computed expression - ||, &&, nested, a call returning the function, "
+                  "{{ }} - for every kind of function without the flag; purely computational expressions - every binary operator x operand pairs "
+                  "and chains A op B op C over live shared containers, null, unset custom variables, literals) x 5 production call sites, ~135 reflected natives x argument tuples, every no_user_view "
                   "field of every type through 16 read paths, and ~290 events with 1-6 subscribers through EventsSubscriber + "
                   "ApiEvents::CheckResultHandler -> EventsFilter::Push, with deep snapshots of the global namespace tree, all config objects, the "
                   "data directory and the application singleton; the model configured by the generated tables predicts outcome class, delivery "
                   "and changed-bit, and the spec predicate is evaluated on the implementation's observations")
     level_note = ("Trusted: Lean kernel (+ propext, Classical.choice, Quot.sound), the translator's regexes (anchors lost => tie broken), harness/driver. "
-                  "Not modelled: the semantics of individual natives (parameters; 'flagged safe => pure' is an assumption exercised by snapshot diffing), "
-                  "value-level semantics of the full DSL (containers hold strings; aliasing of shared containers is exercised by the harness, not modelled), "
+                  "Modelled since round 4: the six higher-order natives of array-script.cpp (sort/map/reduce/filter/any/all) with the per-native callback test "
+                  "as a GENERATED flag (callback_checks_present; callback_check_is_necessary shows the model is sensitive to it), so the all-programs theorems cover "
+                  "functions invoked as callbacks. Not modelled: the semantics of the other natives (parameters; 'flagged safe => pure' is an assumption exercised by snapshot diffing), "
+                  "value-level semantics of the full DSL (containers hold strings; model values are by-value, so aliasing of shared containers - an operator or "
+                  "native handing back a LIVE container that a later node appends to - cannot arise in the model: it is exercised by the harness's operator/"
+                  "whitelisted-native sweeps over live containers with the deep snapshot, not proved), "
                   "parsing, HTTP parameter parsing of the handlers. F-C19a (const in a sandbox) was repaired by 03364e3; known: "
                   "F-C19b (sandboxed console serialises hidden fields of a returned object). F-C19c (`IcingaApplication()` in a sandboxed frame "
                   "cleared Application::m_Instance) was repaired by ac7cac3; its witness stays in corpus/C19 as a regression case.")
@@ -128,9 +146,13 @@ class C19(Check):
         "(equivalent spellings recognised, removed/weakened guards rejected) runs on every check",
         "which error a refusal is (sandbox / hidden / other) is read from message texts and only counted; the verdict uses value-vs-error, "
         "the snapshot diff, planted markers and counting wrappers around every native without the side-effect-free flag",
+        "higher-order natives: which element tuples the callback is invoked with is abstracted (one per element; neighbouring pairs for reduce/sort), "
+        "their results are values of the right shape only",
         "modelled, not verified: what each native function does (a parameter of the model: name -> (side-effect-free flag, arbitrary state transformer)); "
         "the hypothesis `SafeNativesPure` is exercised, not proved, by calling every reflected native with live objects and diffing deep snapshots",
-        "abstract values: containers hold strings; operators reduced to integers/strings (operators never touch state in either)",
+        "abstract values: containers hold strings; operators are modelled at the level of value TYPES (which operand types +, -, *, /, %, bit and comparison "
+        "operators accept, what they return, when they raise: value-operators.cpp:208-298 etc.; outcome compared for + and - over all operand-type pairs and "
+        "chains), numbers are integers; operators never touch state in either",
         "event streams: `delivered` is read from the private inbox queue of each EventsSubscriber; `a filter raises in a sandboxed frame` is "
         "observed in a frame the harness builds exactly as eventqueue.cpp does (Sandboxed = true set by the harness itself)",
         "constructor effects: the model knows one mechanism (`appDerivedTypes` in Tables.lean, switched by the flag the translator reads from "
@@ -141,6 +163,7 @@ class C19(Check):
         "the production call sites driven by the harness (GetFilterTargets, EventQueue::ProcessEvent, EventsFilter::Push, both console "
         "endpoints) are the only places that evaluate user-supplied code with Sandboxed = true",
         "natives flagged side-effect free do not hand back hidden attribute values (exercised by the serialiser sweep, not proved)",
+        "the pinned secret attributes of types that are not built into the harness (IdoMysqlConnection, IdoPgsqlConnection, IcingaDB) are listed but not exercised",
         "deep snapshot = global namespace tree (depth 7, incl. type prototypes and frozen flags), all fields of all registered config objects, config item counts, data directory listing+content hashes, Application::GetInstance() != null",
     ]
 
@@ -219,13 +242,17 @@ class C19(Check):
         res.exhaustive = False
         res.rule = ("every canned program (one per statement form / operator / left-hand-side shape incl. assignments through missing keys, through "
                     "references and as MEMBERS OF DICTIONARY LITERALS (rooted l-values, aliases of live containers, nested literals) / method call on a "
-                    "hidden receiver / unsafe native as callback of every higher-order native / exfiltration attempt) at five call sites (GetFilterTargets with a "
+                    "hidden or COMPUTED receiver / unsafe native as callback of every higher-order native / exfiltration attempt) at five call sites (GetFilterTargets with a "
                     "filter (+ filter_vars bound to live shared values) for a user without and WITH a permission filter, the event site = EventQueue::SetFilter/ProcessEvent "
                     "AND EventsSubscriber + ApiEvents::CheckResultHandler -> EventsFilter::Push, and BOTH "
                     "console endpoints sandboxed: ConsoleHandler::ExecuteScriptHelper and AutocompleteScriptHelper (word = program + '.x')); "
                     "the constructor call T() / T(1) of every registered type; one event handed to 1-6 /v1/events subscribers with different filters "
                     "(every unordered pair of an 18-filter pool of values, errors, refused statements, unsafe calls, hidden reads + seeded larger subsets); "
-                    "seeded nested programs combining the statement forms; every no_user_view field of every instantiable type (markers planted) read as "
+                    "seeded nested programs combining the statement forms; COMPUTED callees (9 callee-producing expression forms x 13 functions: prototype methods of "
+                    "namespaces/arrays/dictionaries/objects, global functions, Internal.*, script closures, flagged controls); purely COMPUTATIONAL expressions over live "
+                    "shared containers (20 binary operators x ordered operand pairs from {4 live arrays incl. a frozen one, 2 live dictionaries, null, an unset "
+                    "custom variable, array/dictionary literals, number, string}; chains A op B op C and A op (B op C) exhaustively for the operators whose result "
+                    "can be a container (+, -, &&, ||), seeded mixed chains of 3-4 operands, inside `in`, `!`, array literals and conditionals); every no_user_view field of every instantiable type (markers planted) read as "
                     "obj.f, obj[\"f\"], *(&obj.f), (&obj.f).get(), bare identifier after `using obj`, for-in, as receiver of a method call (obj.f.len(), .contains, .to_string, "
                     ".len.call), as constructor argument, via get_object/get_objects/filter_vars at every site, "
                     "plus whole-object serialisers; every whitelisted function/prototype method with a live UNSORTED shared container (object attribute, "
